@@ -17,8 +17,11 @@ Inductive case :=
 | KTs (k : ts_branch) (rate pts i obs : Z)           (* the real mpegts.FromStream, branch k on a format of clock rate `rate`:
                                                         the PES header written for frame i of a unit stamped pts carries obs
                                                         (raw 33 bits, parsed from the produced transport stream) *)
-| KTsRec (k : ts_branch) (rate pts i obs : Z).       (* the same for the MPEG-TS recorder (recorder.formatMPEGTS, its own copy of
+| KTsRec (k : ts_branch) (rate pts i obs : Z)        (* the same for the MPEG-TS recorder (recorder.formatMPEGTS, its own copy of
                                                         the branches): PES headers of the recorded .ts file *)
+| KRtmpDur (rate pts adv obs : Z).                   (* the real rtmp.FromStream, a branch that derives one timestamp per frame
+                                                        (AC-3, MPEG-4 Audio, Opus): the message written for the frame that lies adv
+                                                        ticks after the unit timestamp pts carries DTS obs (nanoseconds) *)
 
 Definition mismatch (c : case) : bool :=
   match c with
@@ -29,6 +32,7 @@ Definition mismatch (c : case) : bool :=
   | KFact _ _ _ _ => false
   | KTs k rate pts i obs => negb (pes33 (ts_written protocols_mpegts__multiplyAndDivide k rate pts i) =? obs)
   | KTsRec k rate pts i obs => negb (pes33 (ts_written recorder__multiplyAndDivide k rate pts i) =? obs)
+  | KRtmpDur rate pts adv obs => negb (protocols_rtmp__timestampToDuration (wrap64 (pts + adv)) rate =? obs)
   end.
 
 Definition ok_rate (r : Z) : bool := (1 <=? r) && (r <=? 4294967296).
@@ -53,4 +57,9 @@ Definition spec_fail (c : case) : bool :=
   | KFact lo hi obs_lo obs_hi => (obs_lo <? lo) || (hi <? obs_hi) || (obs_hi <? obs_lo)
   (* written timestamp: the exact conversion to 90 kHz of the POSITION of that frame (unit timestamp + i frame lengths) *)
   | KTs k rate pts i obs | KTsRec k rate pts i obs => ts_judged rate pts i && negb (ts_obs_ok k rate pts i obs)
+  (* message timestamp: the exact conversion to nanoseconds of the POSITION of that frame (unit timestamp + lengths of the
+     earlier frames of the unit), whenever it is representable *)
+  | KRtmpDur rate pts adv obs =>
+      let e := conv (pts + adv) rate 1000000000 in
+      ok_rate rate && in_int64b pts && in_int64b (pts + adv) && in_int64b e && negb (obs =? e)
   end.
